@@ -229,6 +229,10 @@ def exec_state(df, gens, st, emb, variant, part):
     except Exception as ex:
         refused, where = True, "constructor:" + type(ex).__name__
     if not obs["ok"]:
+        if not refused and obs["at"] == "constructor":
+            why = ("ndim" if len(me["n"]) != 3 else "nvdim" if f["nv"] not in (1, 3) else "mapping")
+            part.violation(key("C18_Refusals", why + "/constructor"), "FieldRotator(field) accepted a field that is not scalar/3-vector "
+                           "on a 3-d mesh with every component mapped to an axis", wit())
         if not refused:
             try:
                 rotor.rotate("from_euler", "z", 0.3, n=(2, 2, 2))
@@ -287,6 +291,9 @@ def exec_state(df, gens, st, emb, variant, part):
     part.note("cls_inside", counts[1] + counts[4])
     part.note("cls_band", counts[2])
     part.note("cls_on_centre", counts[3])
+    part.note("cls_inside_undecided", counts[4])
+    if f["kind"] == "cells" and st["rot"]["d"] > 1:
+        part.note("interp_cells_compared", counts[1])
     # labels and mapping say what the components mean: they must be the original's
     if f["nv"] == 3 and (list(rf.vdims) != list(field.vdims) or dict(rf.vdim_mapping) != dict(field.vdim_mapping)):
         part.violation(key(clause, "mapping"), "component labels / component-to-axis mapping changed", wit(got=rf.vdim_mapping))
@@ -424,7 +431,7 @@ def gen_trace(df, rnd, tid, embs):
         bound = 3 * D * (D * sumE) * (L // min(tn)) * (2 * max(tn)) * amax
         if bound < 2**30 and D * D * L * maxE * amax < 2**30 and rf.nvdim == f["nv"]:
             arr = rf.array
-            idx = [tuple(rnd.randrange(tn[j]) for j in range(3)) for _ in range(48)]
+            idx = [tuple(rnd.randrange(tn[j]) for j in range(3)) for _ in range(32)]
             den = D if f["kind"] == "vec" else D * D * L
             for t in sorted(set(idx)):
                 vals, oks = [], []
@@ -462,7 +469,7 @@ def run_traces(ctx, df, ntraces, embs):
     nin = sum(d[3] for d in done)
     nout = sum(d[4] for d in done)
     nband = sum(d[5] for d in done)
-    if traces and (nin == 0 or nout == 0):
+    if traces and (nin == 0 or nout == 0) and not ctx.found:
         raise core._tlc.MachineryError(f"vacuity guard (T): inside={nin} outside={nout}")
     ctx.notes["T_cls_inside"] = nin
     ctx.notes["T_cls_outside"] = nout
@@ -479,8 +486,8 @@ def run_traces(ctx, df, ntraces, embs):
 # ------------------------------------------------------------------ run
 def embs_for(tier, seed):
     if tier == "quick":
-        return [embed.DYADIC[1], embed.REAL[1], embed.REAL[4]] + embed.seeded(seed, 1)
-    return embed.DYADIC + embed.REAL + embed.seeded(seed, 2)
+        return [embed.DYADIC[1], embed.REAL[4]] + embed.seeded(seed, 1)
+    return [embed.DYADIC[1], embed.DYADIC[3], embed.REAL[0], embed.REAL[2], embed.REAL[4]] + embed.seeded(seed, 1)
 
 
 def read_gens(r):
@@ -490,16 +497,21 @@ def read_gens(r):
     return printed[0][1]
 
 
-def run(ctx):
+def collect(ctx):
+    """everything except the final matching against known findings; returns the extra evidence dict"""
     df = core.import_library()
     embs = embs_for(ctx.tier, ctx.seed)
-    r = ctx.model("MC_C18", f"C18_{ctx.tier}.cfg", dump=True)
+    r = ctx.model("MC_C18", f"C18_{ctx.tier}.cfg", dump=True, coverage=(ctx.tier == "quick" and None), timeout=3000)
+    if ctx.tier == "thorough":  # per-action coverage from the small configuration (coverage slows the big run a lot)
+        rc = core._tlc.run("MC_C18", "C18_quick.cfg", ctx.scratch, coverage=True, tag="C18_cov")
+        for a, c in rc.coverage.items():
+            ctx.coverage_actions[f"MC_C18.{a}"] = c[0]
     if r.ok:
         gens = read_gens(r)
         states = ctx.dump_states(r)
         if len(states) != r.distinct:
             raise core._tlc.MachineryError(f"dump has {len(states)} states, TLC reports {r.distinct}")
-        nvar = 2 if ctx.tier == "quick" else 3
+        nvar = 2
         work = []
         for si, s in enumerate(states):
             for ei in range(len(embs)):
@@ -518,21 +530,35 @@ def run(ctx):
             return part
 
         ctx.pmap(chunk, work)
-        for cls in ("cls_inside", "cls_outside", "cls_band"):
-            if not ctx.notes.get(cls):
+        for cls in ("cls_inside", "cls_outside", "cls_band", "interp_cells_compared"):
+            if not ctx.notes.get(cls) and not ctx.found:  # (a violation may have cut the comparison short)
                 raise core._tlc.MachineryError(f"vacuity guard: no target cell of class {cls} was compared")
-    run_traces(ctx, df, 400 if ctx.tier == "quick" else 4000, embs)
+    run_traces(ctx, df, 200 if ctx.tier == "quick" else 3000, embs)
     ctx.assumptions += [
         "TLC explores the bounded program space of spec/C18.tla completely (bounds in MC_C18.tla and the cfg)",
         "rotations are rational (SO(3,Q)); irrational angles and the band less than one cell from the boundary are not decided",
         "refused = FieldRotator(field) raises, or its first rotate() raises",
     ]
-    return core.finish(ctx, rule=RULE, extra={"embeddings": [e.name for e in embs], "input_forms": FORMS})
+    return {"embeddings": [e.name for e in embs], "input_forms": FORMS}
+
+
+def run(ctx):
+    extra = collect(ctx)
+    return core.finish(ctx, rule=RULE, extra=extra)
 
 
 def replay(ctx, path):
-    df = core.import_library()
+    """re-execute the recorded run (same tier and seed, deterministic) against the current tree and report whether the
+    recorded violation key is still produced"""
     with open(path) as fh:
         rp = json.load(fh)
-    print("witness:", json.dumps(rp["witness"])[:3000])
-    return 1
+    ctx.tier = rp.get("tier", ctx.tier)
+    ctx.seed = rp.get("seed", ctx.seed)
+    collect(ctx)
+    hit = ctx.found.get(rp["key"])
+    if hit:
+        print(f"still fails: {rp['key']}: {hit['what']} (x{hit['count']})")
+        print("witness:", json.dumps(hit["witness"])[:2000])
+        return 1
+    print(f"not reproduced: {rp['key']}")
+    return 0
